@@ -7,3 +7,10 @@ pub use ordering_sender::OrderingSender;
 pub use unordered_receiver::{
     DeserializeError, EndOfStreamError, Error as UnorderedReceiverError, UnorderedReceiver,
 };
+
+// verification hook (guard: --cfg ipa_verif)
+#[cfg(all(test, ipa_verif))]
+#[allow(warnings, clippy::all, clippy::pedantic)]
+mod verif {
+    include!(concat!(env!("IPA_VERIF_DIR"), "/h2_buffers.rs"));
+}
